@@ -1,6 +1,6 @@
 """Escaping rules shared by C02, C07, C08: the escape table (S-TABLE) and the rule that data strings
 reach a JSON writer's output only through json_escape (S-ESCFLOW)."""
-from ..srules import S, find_values, contains_value, unbyref
+from ..srules import S, find_values, contains_value, unbyref, deep_values
 from ..guard import PROVED, VIOLATION, UNDECIDED
 
 ESCAPE = "pocket_types::json::json_escape::json_escape"
@@ -149,10 +149,13 @@ def writer_escapes(ctx, s, nice_name, out_local_name="output", data_preds=None):
         if contains_value(srcv, lambda x: x[0] == "call" and (x[1] == ESCAPE or s.nice(x[1]) == ESCAPE)) or \
                 contains_value(src, lambda x: x[0] == "call" and (x[1] == ESCAPE or s.nice(x[1]) == ESCAPE)):
             continue
-        if contains_value(srcv, lambda x: x[0] == "call" and x[1].rsplit("::", 1)[-1] in ("format", "as_json", "to_string")):
+        allv = deep_values(an, srcv) + deep_values(an, src)
+        if any(contains_value(x, lambda y: y[0] == "call" and y[1].rsplit("::", 1)[-1] in ("format", "as_json", "to_string")) for x in allv):
             continue
-        if _has_data(srcv) or _has_data(src):
-            bad.append((b, info))
+        if any(contains_value(x, lambda y: y[0] == "call" and (y[1] == ESCAPE or s.nice(y[1]) == ESCAPE)) for x in allv):
+            continue
+        # anything else that is appended to the JSON text is raw data
+        bad.append((b, info))
     for b, info in bad:
         s.add("S-ESCFLOW", fn, "raw-data-in-json", s.show(info["args"][1], fn)[:60], info["sp"], VIOLATION,
               "event/filter data is appended to JSON output without passing through json_escape", b)
